@@ -57,13 +57,51 @@ def junk(solver):
     solver.ensure(b[0] | ~b[0], i[0] <= i[1] + 9, (b[1] & b[2]).then(i[0] >= -2))
 
 
-def make_graph(n, edges):
+def make_graph(n, edges, grown=None):
+    """Build a cspuz Graph.  With grown=k the Graph object has a history: only the first k edges are added, then the
+    object is *used* by every graph constraint on throw-away Solvers (and its line graph is taken), then the remaining
+    edges are added.  A Graph with a history must behave exactly like one built in one go."""
     from cspuz import graph
 
     g = graph.Graph(n)
-    for u, v in edges:
+    if grown is None:
+        for u, v in edges:
+            g.add_edge(u, v)
+        return g
+    for u, v in edges[:grown]:
+        g.add_edge(u, v)
+    use_everywhere(g)
+    for u, v in edges[grown:]:
         g.add_edge(u, v)
     return g
+
+
+def use_everywhere(g):
+    """Post every graph constraint once on this Graph object (results are thrown away)."""
+    from cspuz import Solver, graph
+
+    n, m = g.num_vertices, len(g)
+    calls = [
+        lambda s: graph.active_vertices_connected(s, s.bool_array(n), g, use_graph_primitive=False),
+        lambda s: graph.active_vertices_connected(s, s.bool_array(n), g, acyclic=True),
+        lambda s: graph.active_vertices_connected(s, s.bool_array(n), g, use_graph_primitive=True),
+        lambda s: graph.active_vertices_not_adjacent(s, s.bool_array(n), g),
+        lambda s: graph.active_vertices_not_adjacent_and_not_segmenting(s, s.bool_array(n), g),
+        lambda s: graph.active_edges_acyclic(s, s.bool_array(m), g),
+        lambda s: graph.division_connected(s, s.int_array(n, 0, 1), 2, g),
+        lambda s: graph.active_edges_single_cycle(s, s.bool_array(m), g, use_graph_primitive=False),
+        lambda s: graph.active_edges_single_cycle(s, s.bool_array(m), g, use_graph_primitive=True),
+        lambda s: graph.active_edges_single_path(s, s.bool_array(m), g, use_graph_primitive=True),
+        lambda s: graph.division_connected_variable_groups(s, graph=g, group_size=[None] * n),
+        lambda s: graph.division_connected_variable_groups_with_borders(s, group_size=[None] * n, is_border=s.bool_array(m), graph=g, use_graph_primitive=False),
+        lambda s: g.line_graph(),
+        lambda s: (len(g), list(g), [g[i] for i in range(len(g))]),
+    ]
+    for c in calls:
+        try:
+            c(Solver())
+        except Exception:
+            pass  # whatever goes wrong here is judged by the checks that own that constraint
 
 
 def patterns(n, prange=None):
